@@ -50,17 +50,17 @@ type ack struct {
 }
 
 type world struct {
-	ctx    context.Context
-	out    *vc.Out
-	caseID uint64
+	ctx     context.Context
+	out     *vc.Out
+	caseID  uint64
 	n       *vnode.Node
 	remote  *vnode.Node
 	remotes []*vnode.Node // every node commits are made on (independent branches of the same documents)
-	accs   []string // docIDs of the shared accounts
-	mu     sync.Mutex
-	hist   []string
-	panics int
-	burst  bool // deliver the merge events back to back
+	accs    []string      // docIDs of the shared accounts
+	mu      sync.Mutex
+	hist    []string
+	panics  int
+	burst   bool // deliver the merge events back to back
 	onlyInc bool
 }
 
@@ -354,12 +354,18 @@ func (w *world) phaseSharedTxn(g int) {
 	must(err)
 	var wg sync.WaitGroup
 	results := make([]string, g)
+	// the transaction is bound to a context once and the goroutines share that context (as requests handled under one
+	// transaction do), or every goroutine binds it to a context of its own
+	shared := db.InitContext(w.ctx, txn)
 	for i := 0; i < g; i++ {
 		wg.Add(1)
 		go func(i int) {
 			defer wg.Done()
 			defer w.guard("shared-transaction create")
-			ctx := db.InitContext(w.ctx, txn)
+			ctx := shared
+			if w.caseID%2 == 1 {
+				ctx = db.InitContext(w.ctx, txn)
+			}
 			res := w.n.GQL(ctx, fmt.Sprintf(`mutation { create_Item(input: {k: %d, v: "s%d"}) { _docID } }`, 500000+i, i))
 			results[i] = classify(res)
 			if results[i] == "error" {
